@@ -1,15 +1,212 @@
-import Capella.Model.Txn
+import Capella.Lemmas.TxnSave
 
 /-!
 # C15 — a failed save leaves the files on disk exactly as they were
+
+Property theorems only; the model is `Capella/Model/Txn.lean`, helper lemmas live in
+`Capella/Lemmas/Txn.lean` and `Capella/Lemmas/TxnSave.lean`.
+
+Reading guide.  `save tmp ord σ pre dry frags s` is `MelodyLoader.save` on a `LocalFileHandler`:
+`tmp` is `_tmpname`, `ord` the iteration order of the handler's Python `set` (any permutation), `σ`
+the fault schedule (which effectful call fails, with which exception), `pre` what the checks before
+the transaction raise, `frags` the files to write.  A save makes five effectful calls per file
+(`open`, `serialize`, `write` declaration, `write` payload, `close`) and then one `replace` per file.
+`s.fs : path → Option bytes` is the directory, `s.txn` the handler's private transaction set.
 -/
 namespace Capella.Props.C15
 open Capella.Txn
 
+variable {P : Type} [DecidableEq P] (tmp : P → P) (ord : List P → List P)
+
+/-- **For every fault point up to and including the first rename, and every fault kind**: if the
+`k`-th effectful call of a save fails (`k < 5·n`: any open / serialisation / write / close of any of
+the `n` files; `k = 5·n`: the first rename of a non-dry save), then the caller sees exactly the
+injected error, the handler's transaction is reset, and every path of the directory is as it was
+before the call or is one of the save's temporary names and does not exist. -/
+theorem failed_save_restores (hord : ∀ l, (ord l).Perm l) (s : St P) (h : s.txn = none)
+    (frags : List (Frag P)) (hg : GoodFrags [] frags) (dry : Bool) (k : Nat) (f : Fault)
+    (hk : k < 5 * frags.length ∨ (k = 5 * frags.length ∧ dry = false ∧ frags ≠ [])) :
+    (save tmp ord (single (s.clock + k) f) none dry frags s).2 = some f.err ∧
+    (save tmp ord (single (s.clock + k) f) none dry frags s).1.txn = none ∧
+    ∀ q, (save tmp ord (single (s.clock + k) f) none dry frags s).1.fs q = s.fs q ∨
+      (q ∈ tmps tmp frags ∧ (save tmp ord (single (s.clock + k) f) none dry frags s).1.fs q = none) :=
+  ⟨(single_fault_restores tmp ord hord s h frags hg dry k f hk).1,
+   transaction_txn tmp ord _ dry _ s h,
+   (single_fault_restores tmp ord hord s h frags hg dry k f hk).2⟩
+
+/-- The same with the usual precondition that no stale temporary file was lying around: the
+directory after the failed save *is* the directory before it. -/
+theorem failed_save_restores_exact (hord : ∀ l, (ord l).Perm l) (s : St P) (h : s.txn = none)
+    (frags : List (Frag P)) (hg : GoodFrags [] frags) (dry : Bool) (k : Nat) (f : Fault)
+    (hk : k < 5 * frags.length ∨ (k = 5 * frags.length ∧ dry = false ∧ frags ≠ []))
+    (hclean : ∀ q ∈ tmps tmp frags, s.fs q = none) :
+    (save tmp ord (single (s.clock + k) f) none dry frags s).1.fs = s.fs := by
+  funext q
+  rcases (single_fault_restores tmp ord hord s h frags hg dry k f hk).2 q with hq | ⟨hm, hq⟩
+  · exact hq
+  · rw [hq, hclean q hm]
+
+/-- Any transaction body (fragment writes, duplicate names, missing directories, exceptions raised
+by the caller, attempts to nest a transaction), any number of faults inside the body: if the body
+ends with error `e` and clean-up itself meets no fault, `e` is what the caller sees, the transaction
+is reset and the directory is restored. -/
+theorem abort_restores (σ : Sched) (hord : ∀ l, (ord l).Perm l) (dry : Bool) (body : List (Op P)) (s : St P)
+    (h : s.txn = none) (e : Err) (he : (afterBody tmp σ body s).2 = some e)
+    (hq : QuietFrom σ (afterBody tmp σ body s).1.clock) :
+    (transaction tmp ord σ dry body s).2 = some e ∧
+    (transaction tmp ord σ dry body s).1.txn = none ∧
+    ∀ q, (transaction tmp ord σ dry body s).1.fs q = s.fs q ∨
+      (q ∈ (paths body).map tmp ∧ (transaction tmp ord σ dry body s).1.fs q = none) :=
+  ⟨(abort_restores' tmp ord σ hord dry body s h e he hq).1, transaction_txn tmp ord σ dry body s h,
+   (abort_restores' tmp ord σ hord dry body s h e he hq).2⟩
+
+/-- If clean-up runs into `OSError`s (a temp file cannot be removed), the error that aborted the
+transaction is still the one the caller sees — it is never masked by clean-up trouble. -/
+theorem original_error_not_masked (σ : Sched) (dry : Bool) (body : List (Op P)) (s : St P)
+    (h : s.txn = none) (e : Err) (he : (afterBody tmp σ body s).2 = some e)
+    (hos : ∀ n f, (afterBody tmp σ body s).1.clock ≤ n → σ n = some f → f.err.isOS = true) :
+    (transaction tmp ord σ dry body s).2 = some e :=
+  body_error_reported tmp ord σ dry body s h e he hos
+
+/-- Whatever happens — any body, any fault sequence, faults during commit or clean-up included —
+the handler is never left with an open transaction. -/
+theorem transaction_always_reset (σ : Sched) (dry : Bool) (body : List (Op P)) (s : St P)
+    (h : s.txn = none) : (transaction tmp ord σ dry body s).1.txn = none :=
+  transaction_txn tmp ord σ dry body s h
+
+/-- A dry-run save changes nothing: no error, transaction reset, every path as before (or a temp
+name that does not exist). -/
+theorem dry_run_noop (hord : ∀ l, (ord l).Perm l) (s : St P) (h : s.txn = none)
+    (frags : List (Frag P)) (hg : GoodFrags [] frags) (hok : TmpOK tmp (frags.map (·.path))) :
+    (save tmp ord noFault none true frags s).2 = none ∧
+    (save tmp ord noFault none true frags s).1.txn = none ∧
+    ∀ q, (save tmp ord noFault none true frags s).1.fs q = s.fs q ∨
+      (q ∈ tmps tmp frags ∧ (save tmp ord noFault none true frags s).1.fs q = none) := by
+  have he : (afterBody tmp noFault (frags.map Op.frag) s).2 = none := by
+    have := noFault_succeeds tmp ord hord s h frags hg hok true
+    simp only [save] at this
+    rw [transaction_phases tmp ord noFault true _ s h] at this
+    rcases hb : (afterBody tmp noFault (frags.map Op.frag) s).2 with _ | e
+    · rfl
+    · simp [afterCleanup, afterCommit, hb] at this
+      split at this <;> simp_all
+  have := dry_restores' tmp ord noFault hord (frags.map Op.frag) s h he (noFault_quietFrom _)
+  rw [paths_map_tmp] at this
+  exact ⟨this.1, transaction_txn tmp ord _ true _ s h, this.2⟩
+
+/-- A save that reports success — under any schedule — has put the complete new content
+(declaration ++ payload) in place of every file it writes, left no temporary file and touched
+nothing else. -/
+theorem commit_complete (σ : Sched) (hord : ∀ l, (ord l).Perm l) (s : St P) (h : s.txn = none)
+    (frags : List (Frag P)) (hg : GoodFrags [] frags) (hok : TmpOK tmp (frags.map (·.path)))
+    (hs : (save tmp ord σ none false frags s).2 = none) :
+    (save tmp ord σ none false frags s).1.txn = none ∧
+    (∀ fr ∈ frags, (save tmp ord σ none false frags s).1.fs fr.path = some (fr.decl ++ fr.payload)) ∧
+    (∀ q ∈ tmps tmp frags, (save tmp ord σ none false frags s).1.fs q = none) ∧
+    (∀ q, q ∉ frags.map (·.path) → q ∉ tmps tmp frags →
+      (save tmp ord σ none false frags s).1.fs q = s.fs q) := by
+  have hsp := success_spec tmp ord σ hord s h frags hg hok hs
+  refine ⟨transaction_txn tmp ord σ false _ s h, ?_, ?_, ?_⟩
+  · intro fr hfr
+    rw [hsp, committed, newContent_mem frags hg.1 fr hfr]
+  · intro q hq
+    have hnp : q ∉ frags.map (·.path) := by
+      intro hm
+      obtain ⟨a, ha, rfl⟩ := List.mem_map.mp hq
+      exact hok.2 a.path (List.mem_map_of_mem ha) _ hm rfl
+    rw [hsp, committed, newContent_none frags q hnp]
+    simp [hq]
+  · intro q h1 h2
+    rw [hsp, committed, newContent_none frags q h1]
+    simp [h2]
+
+/-- Under **any** fault sequence and in any mode, no model file is ever torn: a path that is not a
+temporary name is byte-identical to before or holds the complete new content of that file. -/
+theorem never_torn (σ : Sched) (hord : ∀ l, (ord l).Perm l) (s : St P) (h : s.txn = none)
+    (frags : List (Frag P)) (hg : GoodFrags [] frags) (hok : TmpOK tmp (frags.map (·.path))) (dry : Bool) :
+    ∀ q, q ∉ tmps tmp frags →
+      (save tmp ord σ none dry frags s).1.fs q = s.fs q ∨
+      (q ∈ frags.map (·.path) ∧ (save tmp ord σ none dry frags s).1.fs q = newContent frags q) :=
+  never_torn' tmp ord σ hord s h frags hg hok dry
+
+/-- After a first save that went wrong in **any** way (any fault sequence, any mode, any set
+iteration order), a second save on the same handler succeeds and installs the complete new content
+of every file, with no temporary file left. -/
+theorem retry_succeeds (σ : Sched) (ord' : List P → List P) (hord' : ∀ l, (ord' l).Perm l) (s : St P)
+    (h : s.txn = none) (frags : List (Frag P)) (hg : GoodFrags [] frags)
+    (hok : TmpOK tmp (frags.map (·.path))) (dry : Bool) :
+    let s1 := (save tmp ord σ none dry frags s).1
+    (save tmp ord' noFault none false frags s1).2 = none ∧
+    (save tmp ord' noFault none false frags s1).1.txn = none ∧
+    ∀ q, (save tmp ord' noFault none false frags s1).1.fs q = committed tmp frags s1.fs q := by
+  intro s1
+  have h1 : s1.txn = none := transaction_txn tmp ord σ dry _ s h
+  have hs := noFault_succeeds tmp ord' hord' s1 h1 frags hg hok false
+  exact ⟨hs, transaction_txn tmp ord' noFault false _ s1 h1,
+    success_spec tmp ord' noFault hord' s1 h1 frags hg hok hs⟩
+
+/-- The checks of `MelodyLoader.save` run before the transaction opens: if they raise, nothing at
+all has happened. -/
+theorem checks_come_first (σ : Sched) (e : Err) (dry : Bool) (frags : List (Frag P)) (s : St P) :
+    save tmp ord σ (some e) dry frags s = (s, some e) := rfl
+
 /-- A second transaction cannot be opened while one is running, and the attempt touches nothing. -/
-theorem nested_refused {P : Type} [DecidableEq P] (tmp : P → P) (ord : List P → List P) (σ : Sched)
-    (dry : Bool) (body : List (Op P)) (s : St P) (l : List P) (h : s.txn = some l) :
-    transaction tmp ord σ dry body s = (s, some .alreadyOpen) := by
+theorem nested_refused (σ : Sched) (dry : Bool) (body : List (Op P)) (s : St P) (l : List P)
+    (h : s.txn = some l) : transaction tmp ord σ dry body s = (s, some .alreadyOpen) := by
   simp [transaction, h]
+
+/-! ## The pinned code before the repair did not have the property -/
+
+section witness
+def w_tmp : Nat → Nat := (· + 100)
+def w_frags : List (Frag Nat) := [{ path := 1, decl := [1], payload := [7] }, { path := 2, decl := [1], payload := [8] }]
+def w_s : St Nat := { fs := fun q => if q = 1 then some [1, 5] else none, txn := none, clock := 0, log := [] }
+end witness
+
+/-- `write_transaction` as it was before `fix: roll back a failed local write transaction …`:
+when opening the second temp file fails with ENOSPC the caller sees a `FileNotFoundError` (errno 2)
+instead, and the handler keeps its transaction set — every later save is refused.  Kept so that a
+reverted repair is recognisable by name. -/
+theorem pinned_open_fault_masks_and_sticks :
+    let r := transactionOld w_tmp id (single 5 ⟨.os 28, false⟩) false (w_frags.map Op.frag) w_s
+    r.2 = some (.os 2) ∧ r.1.txn ≠ none ∧
+    (transactionOld w_tmp id noFault false (w_frags.map Op.frag) r.1).2 = some .alreadyOpen := by
+  decide
+
+/-! ## Non-vacuity -/
+
+example : GoodFrags ([] : List Nat) w_frags := by
+  refine ⟨by decide, ?_⟩
+  intro fr hfr
+  simp [w_frags] at hfr
+  rcases hfr with rfl | rfl <;> simp
+
+example : TmpOK w_tmp (w_frags.map (·.path)) := by
+  refine ⟨?_, ?_⟩ <;> decide
+
+/-- the repaired code on the same witness: injected error seen, transaction reset, file 1 as before -/
+example :
+    let r := save w_tmp id (single 5 ⟨.os 28, false⟩) none false w_frags w_s
+    r.2 = some (.os 28) ∧ r.1.txn = none ∧ r.1.fs 1 = some [1, 5] ∧ r.1.fs 101 = none ∧ r.1.fs 102 = none := by
+  decide
+
+/-- a fault at the first rename (index 10 = 5·2) -/
+example :
+    let r := save w_tmp id (single 10 ⟨.interrupt, false⟩) none false w_frags w_s
+    r.2 = some .interrupt ∧ r.1.txn = none ∧ r.1.fs 1 = some [1, 5] ∧ r.1.fs 2 = none ∧ r.1.fs 101 = none := by
+  decide
+
+/-- a fault at the second rename is outside `failed_save_restores` (`k = 11 > 5·2`): file 1 is new,
+file 2 is not there yet — but nothing is torn and nothing is left behind -/
+example :
+    let r := save w_tmp id (single 11 ⟨.os 5, false⟩) none false w_frags w_s
+    r.2 = some (.os 5) ∧ r.1.txn = none ∧ r.1.fs 1 = some [1, 7] ∧ r.1.fs 2 = none ∧ r.1.fs 102 = none := by
+  decide
+
+/-- fault-free save -/
+example :
+    let r := save w_tmp id noFault none false w_frags w_s
+    r.2 = none ∧ r.1.fs 1 = some [1, 7] ∧ r.1.fs 2 = some [1, 8] ∧ r.1.fs 101 = none := by
+  decide
 
 end Capella.Props.C15
